@@ -31,7 +31,8 @@ def guarded(fn, seconds=10, retry=False):
     retry=True (fn must be repeatable): a timeout counts only if it repeats with a 6x limit, so that a
     stalled worker on a loaded machine cannot produce a spurious verdict."""
     st, r = _guarded(fn, seconds)
-    if retry and st == 'exc' and isinstance(r, _Timeout):
+    if retry and st == 'exc' and isinstance(r, (_Timeout, MemoryError)):
+        # environmental on a loaded machine unless it repeats (a genuine one is deterministic)
         st, r = _guarded(fn, seconds * 6)
     return st, r
 
